@@ -127,6 +127,37 @@ theorem validate_single_asset {L O tx fork i o} (h : validate L O tx fork = .acc
 
 
 
+/-- **deposit_matches_bound_asset.** "Moves exactly one asset" for deposits: when the asset id of an
+    accepted deposit is already bound to a token, the deposit names exactly that token — same
+    chain and the same asset key (identifiers are interned byte strings: equality is byte-exact,
+    not case-insensitive). -/
+theorem deposit_matches_bound_asset {L O tx fork i o old}
+    (h : validate L O tx fork = .accept i o) (ht : txType tx = ttDeposit)
+    (hold : L.asset tx.asset = some old) :
+    ∃ x d, tx.inputs = [x] ∧ x.deposit = some d ∧ old.chain = d.chain ∧ old.assetKey = d.assetKey := by
+  obtain ⟨_, _, f, _, _, _, hd⟩ := validateM_ok (accept_iff.1 h)
+  rw [ht] at hd
+  have hv := dispatch_deposit hd
+  obtain ⟨x, hx⟩ := validateDeposit_one hv
+  obtain ⟨d, hdep⟩ := Option.isSome_iff_exists.1 (single_deposit hx ht)
+  refine ⟨x, d, hx, hdep, ?_⟩
+  unfold validateDeposit at hv
+  simp only [bind_ok, guardRej_ok] at hv
+  obtain ⟨_, _, _, _, _, _, hv⟩ := hv
+  split at hv
+  · simp at hv
+  · simp only [bind_ok] at hv
+    obtain ⟨_, hvd, _⟩ := hv
+    unfold verifyDepositData at hvd
+    simp only [hx, List.head?_cons, hdep, bind_ok, guardRej_ok, hold] at hvd
+    obtain ⟨_, _, _, _, _, _, hvd⟩ := hvd
+    split at hvd
+    · simp at hvd
+    · simp only [bind_ok, guardRej_ok] at hvd
+      obtain ⟨_, _, hm⟩ := hvd
+      simpa using hm
+
+
 /-- the ledger invariant "stored outputs have positive amounts" (hypothesis `utxoPos` of
     C05.validate_total) is preserved by materialising an accepted transaction's outputs -/
 theorem materialise_pos {L O tx fork i o} (h : validate L O tx fork = .accept i o) :
